@@ -293,14 +293,21 @@ def h_freq_mixed(env, word, pre, post, mq, n):
         env.check_true(len(calls) >= 1 and calls[-1]["kind"] == "density_matrix", "density-matrix sampler used")
         env.check_vec_eq(calls[-1]["probs"], want, f"outcome distribution for term {word} starts from the supplied initial statevector")
     else:
-        b = make_backend(env, n_shots=400)
-        val = b.get_expectation_value(op, circ, initial_statevector=as_array(env, psi))
-        exact = 0.0
+        b = make_backend(env, n_shots=40000)
+        seen, orig = [], b.simulate
+
+        def recording(*a, **k):
+            r = orig(*a, **k)
+            seen.append(r[0])
+            return r
+        b.simulate = recording
+        b.get_expectation_value(op, circ, initial_statevector=as_array(env, psi))
+        # replay only (reached when the solver has produced a counterexample): the 40000-shot histogram of the term's
+        # measurement is within 5 sigma (<= 0.0125) of the distribution the property demands
+        freqs = seen[-1]
         for i, p in enumerate(want):
-            par = sum((i >> (n - 1 - q)) & 1 for q, _ in word) % 2
-            exact += (-1) ** par * complex(p).real
-        # 400 shots: |estimate - exact| <= 5 sigma (sigma <= 1/sqrt(400)), a loose statistical sanity bound
-        env.check_le(abs(complex(val).real - c * exact), abs(c) * 0.25 + 1e-9, "sampled estimate is consistent with the exact value from the initial state")
+            env.check_le(abs(freqs.get(R.bitstring(i, n), 0.) - complex(p).real), 0.015,
+                         f"outcome distribution for term {word} starts from the supplied initial statevector")
 
 
 def h_oneterm(env, n, keys, word):
@@ -441,9 +448,9 @@ def shapes(tier, seed):
             out.append(Shape(f"postselect/{route}/o{outcome}", h_postselect,
                              dict(words=[[(0, "X")], [(0, "Z"), (1, "Z")]], pre=[("RY", [0], []), ("CNOT", [1], [0])],
                                   post=[("RX", [1], [])], mq=0, outcome=outcome, n=2, route=route), modules=MODS))
-    out.append(Shape("freq_mixed/0", h_freq_mixed, dict(word=[(0, "X"), (1, "Z")], pre=[("RY", [0], [])], post=[("CNOT", [1], [0])], mq=0, n=2),
+    out.append(Shape("freq_mixed/0", h_freq_mixed, dict(word=[(0, "Z"), (1, "X")], pre=[("RY", [0], [])], post=[("CNOT", [1], [0])], mq=0, n=2),
                      modules=MODS, max_paths=32))
-    out.append(Shape("freq_mixed/1", h_freq_mixed, dict(word=[(1, "Y")], pre=[("H", [1], [])], post=[("RX", [0], [])], mq=1, n=2),
+    out.append(Shape("freq_mixed/1", h_freq_mixed, dict(word=[(0, "Y"), (1, "Z")], pre=[("H", [1], [])], post=[("RX", [0], [])], mq=1, n=2),
                      modules=MODS, max_paths=32))
     # two measurements with gates in between and all four outcome strings
     for i, route in enumerate(routes):
